@@ -103,6 +103,7 @@ class Rec:
         self.notes = collections.OrderedDict()
         self.unavailable = []
         self.inconclusive = []
+        self.blob = None                   # free-form per-shard data for a property's offline checker (not merged)
         self.t0 = time.time()
 
     # -- partitioning ---------------------------------------------------
@@ -167,7 +168,7 @@ class Rec:
             "samples": self.samples, "violations": self.violations,
             "violation_count": self.violation_count, "vkeys": self.vkeys,
             "exhaustive": self.exhaustive, "notes": self.notes,
-            "unavailable": self.unavailable, "inconclusive": self.inconclusive,
+            "unavailable": self.unavailable, "inconclusive": self.inconclusive, "blob": self.blob,
             "wall_s": round(time.time() - self.t0, 2),
         }
 
